@@ -26,11 +26,13 @@ def shape_obligations(prop):
         return [dict(common, id="C19.ser.det.shape", entry="h_ser_det", timeout=900, must_have=[r"C19\.ser\.det", r"COVER"],
                      strength="B(one module shape: strings of 3 and 0 bytes, 5 code bytes, 1 function, 1 debug entry, 1 import with 2 parameter types; contents arbitrary)")]
     # round trip: the loader recomputes the checksum the serializer stored - two CRC circuits over the same bytes; the cost grows
-    # with the file size, so the shape is split by section group (strings 3 min, the other two: thorough tier)
+    # with the file size, so the shape is one section at a time (strings: 23 checksummed bytes, 3 min; two sections together, 45 bytes: > 40 min)
     obs = []
     for bit, nm, what, tier in ((1, "strings", "strings of 3 and 0 bytes (empty LAST string)", "quick"),
-                                (2, "code", "5 code bytes + 1 function entry", "thorough"),
-                                (4, "meta", "1 debug entry + 1 import with 2 parameter types", "thorough")):
+                                (2, "code", "5 code bytes", "thorough"),
+                                (4, "function", "1 function entry", "thorough"),
+                                (8, "debug", "1 debug entry", "thorough"),
+                                (16, "import", "1 import with 2 parameter types", "thorough")):
         obs.append(dict(common, id="C10.rt.shape." + nm, entry="h_ser_rt", defines={"SER_SHAPE": bit}, timeout=2400, tier=tier,
                         must_have=[r"C10\.rt", r"COVER"], strength="B(one module shape: %s; contents, flags, entry point arbitrary)" % what))
     return obs
